@@ -30,6 +30,7 @@ func TestVerifSim(t *testing.T) {
 			"service handlers (echo the request's unique tag after a scheduler-chosen delay, or fail)", "callers (tape-chosen payloads, shard keys, priorities, deadlines, cancellations)"},
 		Rule: "One run = one synctest bubble with a real transport.Client (pool of 1-4 connections) and a real transport.Server joined by simulated connections; " +
 			"4-40 operations (RPC calls, a few data/notify frames) with at most 2-16 in flight, every byte delivery, handler answer, cancellation, fault and clock tick chosen by the tape. " +
+			"About one run in six is a 'wide burst': one connection whose client and/or server writer is held at its first write while 34-80 operations (equal-length or mixed-length frames) queue behind it, MaxBatchFrames in {64,33,40,128,4}, so single write batches of more than 32 (sometimes more than 64) frames occur in both directions. " +
 			"Non-trivial = at least two calls were in flight together AND at least one call returned its own response AND " +
 			"(a fault fired OR a call timed out / was cancelled OR a frame was delivered in more than one chunk).",
 		Assumptions: []string{"testing/synctest fake clock and quiescence semantics (go1.26.8)",
@@ -77,6 +78,9 @@ type cfg struct {
 	CliQBytes  int
 	SrvQItems  int
 	SrvQBytes  int
+	Burst      int // 0 none, 1 request burst, 2 response burst, 3 both
+	BurstEqual bool
+	BurstN     int
 	SvcConc    int
 	SvcQueue   int
 	SvcTimeout time.Duration
@@ -157,7 +161,9 @@ type world struct {
 	blockedWrites, writeTimeouts, dials, dialTimeouts int
 	seenBlocked, seenWriteTO, seenDialTO                int
 	pendingBySource map[uint64]int
-	batchMax        int
+	batchMax        int // most frames in one client write batch (observer event)
+	srvBatchMax     int // same for the server
+	answers         int // handler releases so far (wide-burst regime: response burst size)
 
 	// server-side write queue refusing a response (observed through the server's
 	// observer events); armedWake: the blocked server writer of this direction
@@ -206,10 +212,18 @@ func (w *world) ObserveTransport(ev transport.Event) {
 type serverObserver struct{ w *world }
 
 func (s serverObserver) ObserveTransport(ev transport.Event) {
+	w := s.w
+	if ev.Name == "write_batch" {
+		w.mu.Lock()
+		if ev.Items > w.srvBatchMax {
+			w.srvBatchMax = ev.Items
+		}
+		w.mu.Unlock()
+		return
+	}
 	if ev.Name != "scheduler_admission" || ev.Result != "full" {
 		return
 	}
-	w := s.w
 	w.mu.Lock()
 	w.srvQueueFull++
 	if d := w.armedWake; d != nil {
@@ -248,7 +262,7 @@ func drawCfg(r *simkit.Run) cfg {
 		c.Cap = []int{64, 700, 4096}[tp.Intn(3)] // a slow reader, also in runs without injected faults
 	}
 	c.Chunk = tp.Weighted([]int{2, 3, 2})
-	c.MaxBody = []int{4096, 256, 1024, 65536}[tp.Intn(4)]
+	c.MaxBody = []int{4096, 256, 1024, 65536, 200000}[tp.Weighted([]int{2, 2, 2, 2, 1})] // 200000 crosses the 64 KiB buffer class
 	if c.Cap < 1<<30 {
 		// a tiny pipe with huge frames only burns steps: keep a frame within ~8 pipe-fulls
 		for _, smaller := range []int{4096, 1024, 256} {
@@ -272,6 +286,29 @@ func drawCfg(r *simkit.Run) cfg {
 	c.CancelBias = tp.Intn(3)
 	c.ErrBias = tp.Intn(3)
 	c.DataFrames = tp.Intn(2) == 0
+	// "wide burst" regime (about 1 run in 6): one connection, its writer held at the
+	// first write while 34-80 operations queue up behind it, then released, so that a
+	// single write batch carries more frames than any fixed-size scratch structure of
+	// the write path (and request ids cross the pending-table shard count several times).
+	// Direction 1 holds the client's writer (request burst), 2 the server's (response
+	// burst, the handlers answer while the stream is held), 3 both.
+	if tp.Weighted([]int{5, 1}) == 1 {
+		c.Burst = 1 + tp.Intn(3)
+		c.BurstEqual = tp.Intn(2) == 0 // equal-length payloads: misframing stays silent on the wire
+		c.Ops = 34 + tp.Intn(47)
+		c.BurstN = 34 + tp.Intn(c.Ops-33)
+		c.Callers, c.Pool = c.Ops, 1
+		c.MaxBody, c.BatchBytes, c.BatchWait = 65536, 65536, 0
+		c.BatchFrames = []int{64, 33, 40, 128, 4}[tp.Weighted([]int{3, 2, 2, 2, 1})]
+		c.CliQueue, c.CliQBytes, c.SrvQItems, c.SrvQBytes = 4096, 0, 0, 0
+		c.Cap, c.WriteTO, c.SvcQueue, c.SvcTimeout, c.StartBias = 1<<30, 0, 128, 0, 120
+		if c.DeadlineBias > 1 {
+			c.DeadlineBias = 1
+		}
+		if c.Chunk > 1 {
+			c.Chunk = 1
+		}
+	}
 	return c
 }
 
@@ -426,7 +463,8 @@ func runWorld(t *testing.T, r *simkit.Run) {
 		"cooldown_ms": c.Cooldown.Milliseconds(), "cli_queue": c.CliQueue, "svc_conc": c.SvcConc, "svc_queue": c.SvcQueue,
 		"svc_timeout_ms": c.SvcTimeout.Milliseconds(), "start_bias": c.StartBias, "deadline_bias": c.DeadlineBias,
 		"cancel_bias": c.CancelBias, "err_bias": c.ErrBias, "data": c.DataFrames,
-		"cli_queue_bytes": c.CliQBytes, "srv_queue_items": c.SrvQItems, "srv_queue_bytes": c.SrvQBytes}
+		"cli_queue_bytes": c.CliQBytes, "srv_queue_items": c.SrvQItems, "srv_queue_bytes": c.SrvQBytes,
+		"burst": c.Burst, "burst_equal_len": c.BurstEqual, "burst_n": c.BurstN}
 	// sync.Pools survive across runs; anything pooled that owns a channel created in
 	// the previous run's bubble would crash the worker when reused in this one
 	// ("synctest channel from outside bubble"). Two GC cycles empty the pools.
@@ -897,6 +935,21 @@ func (w *world) observe() {
 			if len(fresh) > 1 {
 				r.Probe("wire.frames_written_in_one_step>1")
 			}
+			if len(fresh) > 32 {
+				r.Probe("wire.frames_written_in_one_step>32." + d.name)
+			}
+			if len(fresh) > 64 {
+				r.Probe("wire.frames_written_in_one_step>64." + d.name)
+			}
+			// the writer's own stream must be a sequence of well-formed frames (a header
+			// fault injected by the simulator never touches the writer-side record)
+			w.mu.Lock()
+			bad := d.malformed
+			w.mu.Unlock()
+			if bad != "" {
+				r.FailSig("writer-malformed-frame", d.name, fmt.Sprintf("c%d %s: %s, which the wire format forbids (framing lost: a header was paired with another frame's body?)", c.id, d.name, bad), nil)
+				return
+			}
 		}
 	}
 	// 2. responses the client connection consumed
@@ -1117,9 +1170,9 @@ func (w *world) collect() []simkit.Action {
 				acts = append(acts, simkit.Action{Prio: 5, Key: "blackhole " + p.Key, Weight: 2, Do: func() { r.Fault("dial_blackhole"); info.held = true }})
 			}
 		case handlerInfo:
-			acts = append(acts, simkit.Action{Prio: 0, Key: "answer " + p.Key, Weight: 8, Do: func() { w.sim.Release(p, decAnswerOK) }})
+			acts = append(acts, simkit.Action{Prio: 0, Key: "answer " + p.Key, Weight: 8, Do: func() { w.answers++; w.sim.Release(p, decAnswerOK) }})
 			if !w.final && c.ErrBias > 0 {
-				acts = append(acts, simkit.Action{Prio: 2, Key: "fail " + p.Key, Weight: c.ErrBias, Do: func() { w.sim.Release(p, decAnswerErr) }})
+				acts = append(acts, simkit.Action{Prio: 2, Key: "fail " + p.Key, Weight: c.ErrBias, Do: func() { w.answers++; w.sim.Release(p, decAnswerErr) }})
 			}
 			// the handler finishes while the server's writer is blocked behind a slow
 			// reader; if the write queue refuses the response, the writer's pending
@@ -1129,7 +1182,7 @@ func (w *world) collect() []simkit.Action {
 			if cn := info.op.conn; !w.final && cn != nil {
 				d := cn.s2c
 				w.mu.Lock()
-				can := !d.reset && !d.readerClosed && !now.Before(d.stalledUntil) && d.writerBlocked && d.spaceCh != nil && d.inflight() < d.capBytes
+				can := !d.reset && !d.readerClosed && !now.Before(d.stalledUntil) && d.writerBlocked && d.spaceCh != nil && d.inflight() < d.capBytes && !d.held
 				w.mu.Unlock()
 				if can {
 					acts = append(acts, simkit.Action{Prio: 2, Key: "answer+wspace " + p.Key, Weight: 6, Do: func() {
@@ -1140,6 +1193,7 @@ func (w *world) collect() []simkit.Action {
 						w.mu.Lock()
 						w.armedWake, w.armedFired = d, false
 						w.mu.Unlock()
+						w.answers++
 						r.Logf("  handler decision %d; c%d s2c writer is blocked with a window update pending", dec, cn.id)
 						w.sim.Release(p, dec)
 					}})
@@ -1156,7 +1210,7 @@ func (w *world) collect() []simkit.Action {
 			ok := !d.reset && !d.readerClosed && !now.Before(d.stalledUntil)
 			inflight := d.inflight()
 			eof := inflight == 0 && d.writerClosed && !d.eofDelivered
-			wspace := d.writerBlocked && d.spaceCh != nil && inflight < d.capBytes
+			wspace := d.writerBlocked && d.spaceCh != nil && inflight < d.capBytes && !d.held
 			w.mu.Unlock()
 			if !ok {
 				continue
@@ -1188,6 +1242,34 @@ func (w *world) collect() []simkit.Action {
 	// new operations
 	if w.opsLeft > 0 && w.inflight() < c.Callers && len(w.freeSlots()) > 0 {
 		acts = append(acts, simkit.Action{Prio: 1, Key: "start op", Weight: c.StartBias, Do: w.startOp})
+	}
+	// wide-burst regime: the held writer is let go once the burst has queued up behind
+	// it (or when nothing else can make progress); the wake itself is the usual wspace event
+	if c.Burst > 0 {
+		progress := len(acts)
+		for _, cn := range w.conns {
+			for _, d := range []*dirState{cn.c2s, cn.s2c} {
+				d := d
+				w.mu.Lock()
+				held := d.held
+				w.mu.Unlock()
+				if !held {
+					continue
+				}
+				reached := len(w.ops) >= c.BurstN || w.opsLeft == 0
+				if d.name == "s2c" {
+					reached = w.answers >= 34
+				}
+				if reached || progress == 0 {
+					acts = append(acts, simkit.Action{Prio: 1, Key: fmt.Sprintf("unhold c%d %s", cn.id, d.name), Weight: 60, Do: func() {
+						w.mu.Lock()
+						d.held = false
+						w.mu.Unlock()
+						r.Logf("  writer of c%d %s released after %d operations started, %d handler answers", d.c.id, d.name, len(w.ops), w.answers)
+					}})
+				}
+			}
+		}
 	}
 	// cancellations
 	if c.CancelBias > 0 {
@@ -1539,8 +1621,16 @@ func (w *world) startOp() {
 		o.svc = svcMissing
 	}
 	n := 0
-	switch tp.Weighted([]int{8, 3, 1, 1, 1}) {
+	sizes := []int{8, 3, 1, 1, 1}
+	if c.Burst > 0 {
+		sizes = []int{1} // small frames only: the burst has to fit one write batch
+	}
+	switch tp.Weighted(sizes) {
 	case 0:
+		if c.Burst > 0 && c.BurstEqual {
+			n = 24
+			break
+		}
 		n = 6 + tp.Intn(43)
 	case 1:
 		n = 6 + tp.Intn(minInt(1024, c.MaxBody-8))
@@ -1614,6 +1704,7 @@ func (w *world) finalPhase(stepTime func() time.Duration) {
 	w.mu.Lock()
 	for _, cn := range w.conns {
 		cn.c2s.stalledUntil, cn.s2c.stalledUntil = time.Time{}, time.Time{}
+		cn.c2s.held, cn.s2c.held = false, false
 	}
 	w.mu.Unlock()
 	idleLeft := 90 // x 500ms: longer than any deadline, write, dial or handler timeout
@@ -1678,7 +1769,16 @@ func (w *world) finalPhase(stepTime func() time.Duration) {
 		leak += v
 	}
 	bm := w.batchMax
+	sbm := w.srvBatchMax
 	w.mu.Unlock()
+	for _, n := range []int{32, 64} {
+		if bm > n {
+			r.Probe(fmt.Sprintf("write_batch.client_frames>%d", n))
+		}
+		if sbm > n {
+			r.Probe(fmt.Sprintf("write_batch.server_frames>%d", n))
+		}
+	}
 	if leak > 0 {
 		r.ProbeN("pending_entries_left_after_all_calls_returned", leak)
 	}
